@@ -133,7 +133,9 @@ def build(prop: str, gen_deps: Iterable[str] = (), extra_modules: Iterable[str] 
             raise Infra(f"driver build failed:\n{out[-4000:]}")
         rc_p, out = lake([props_mod] + list(extra_modules)); log.append(out)
         props_ok = rc_p == 0
-        rc_o, out_o = lake([oblig_mod]); log.append(out_o)
+        has_oblig = os.path.exists(os.path.join(LEAN, *oblig_mod.split(".")) + ".lean")
+        rc_o, out_o = lake([oblig_mod]) if has_oblig else (0, "")
+        log.append(out_o)
         oblig_ok = rc_o == 0
         broken = []
         if not props_ok:
@@ -143,7 +145,7 @@ def build(prop: str, gen_deps: Iterable[str] = (), extra_modules: Iterable[str] 
             for m in re.finditer(r"error: (\S+\.lean):(\d+):", out_o):
                 broken.append(f"{m.group(1)}:{m.group(2)}")
         # audit whatever built
-        mods = [m for m, ok in ((props_mod, props_ok), (oblig_mod, oblig_ok)) if ok]
+        mods = [m for m, ok in ((props_mod, props_ok), (oblig_mod, oblig_ok and has_oblig)) if ok]
         theorems = {}
         if mods:
             audit_src = "".join(f"import {m}\n" for m in mods) + "import SigmaVerif.AuditCmd\n" + \
